@@ -279,6 +279,9 @@ class LookupDB:
 
         ans = []
         is_hamming = custom_distance == 'hamming'
+        if is_hamming or custom_distance is None:
+            # max_custom_distance is ignored if no custom distance is supplied
+            max_custom_distance = float('inf')
         if is_hamming:
             custom_distance = _hamming_replacement
         elif custom_distance is None:
